@@ -28,7 +28,7 @@ EXTRA_IMPORTS = 'From PJ Require Import Model.Spec.\n'
 RULE = ('method sets of 1..3 (quick) / 1..4 (thorough) methods drawn from a pool of functions with annotated scalar / container / model / '
         'optional parameter and return types (incl. None and missing) and docstrings with and without params / raises sections (reST, and numpy style with description-less entries); the same method name may be exposed by different functions at different endpoints; names that differ only by separator or casing (user_get / user.get, getUsers / get_users); '
         'annotation combinations: errors (own list, ONE list object shared between methods, none), tags, summary, '
-        'description, deprecated, component_name_prefix - every docstring, tag, summary and description carries a marker token unique to its method, and the tokens found in an entry (with the components it reaches) must be the method\'s own; functions at module level or (20%) overrides in a view class of a documented base-class method; extractor stacks {pydantic, pydantic+docstring, docstring+pydantic, pydantic given model configuration arguments (alone, +docstring)}; endpoint '
+        'description, deprecated, servers (Server objects with unset optional fields, in a list or a tuple; tags also as Tag objects in a tuple; servers / tags of the specification object likewise), component_name_prefix - every docstring, tag, summary and description carries a marker token unique to its method, and the tokens found in an entry (with the components it reaches) must be the method\'s own; functions at module level or (20%) overrides in a view class of a documented base-class method; extractor stacks {pydantic, pydantic+docstring, docstring+pydantic, pydantic given model configuration arguments (alone, +docstring)}; endpoint '
         'prefixes (OpenAPI); 1..3 repeated generations on the same specification object; OpenAPI 3.0.3, 3.1.0 and OpenRPC. Each document '
         'is JSON-encoded and validated against the official meta-schema (tests). distinct = distinct case; non-trivial = at least two methods')
 EXHAUSTIVE = {'quick': False, 'thorough': False}
@@ -162,13 +162,16 @@ def generate(seed, tier):
                  # prefixes incl. ones that coincide with the beginning of generated component names (MethodNameParameters, Item, ...)
                  'prefix': rnd.choice([None, None, 'P%d_' % i, '', 'M', 'Get', 'Item', 'M%d' % i]), 'tags': rnd.choice([None, ['TkT%dq' % i], ['TkT%dq' % i, 'TkU%dq' % i]]),
                  'summary': rnd.choice([None, 'TkS%dq S' % i]), 'description': rnd.choice([None, 'TkD%dq D' % i]), 'deprecated': rnd.choice([None, True]),
-                 'endpoint': endpoint}
+                 'endpoint': endpoint,
+                 # servers=... of annotate: spec objects with unset optional fields, handed over in a list or in a tuple
+                 'servers': rnd.choice([None, None, None, 'list', 'tuple']), 'tagobj': rnd.random() < 0.3}
             if kind != 'rpc' and rnd.random() < 0.15:
                 m['sig'], m['doc'] = NUMPY_SIG, NUMPY_DOC
             ms.append(m)
         cases.append({'kind': kind, 'methods': ms, 'shared': rnd.sample(['E1', 'E2', 'E3'], rnd.randint(1, 2)),
                       'stack': rnd.choice(['pyd', 'pyd+doc', 'doc+pyd', 'pydcfg', 'pydcfg+doc']), 'global_prefix': rnd.choice(['', '', 'G_', 'M', 'Get']),
-                      'gens': rnd.choice([1, 2, 3]), 'view': rnd.random() < 0.2})
+                      'gens': rnd.choice([1, 2, 3]), 'view': rnd.random() < 0.2,
+                      'spec_servers': rnd.choice([None, None, 'list', 'tuple']), 'spec_tags': rnd.choice([None, None, 'list', 'tuple'])})
     return cases
 
 
@@ -243,7 +246,7 @@ def closure(entry, comps):
 
 def own_tokens(m, i):
     """(tokens that may occur in the method's entry, tokens that must): its own docstring's; its own annotations'."""
-    must = list(m['tags'] or []) + [x.split()[0] for x in (m['summary'], m['description']) if x]
+    must = list(m['tags'] or []) + [x.split()[0] for x in (m['summary'], m['description']) if x] + (['TkV%dq' % i] if m.get('servers') else [])
     return (['Tk%dq' % i] if DOCS[m['doc']] is not None else []) + must, must
 
 
@@ -296,6 +299,11 @@ def observe(case):
         for key in ('tags', 'summary', 'description', 'deprecated'):
             if m[key] is not None:
                 kw[key] = m[key]
+        if m.get('tagobj') and 'tags' in kw:
+            kw['tags'] = tuple(mod.Tag(name=t) for t in kw['tags'])       # Tag objects (optional fields unset) in a tuple
+        if m.get('servers'):
+            sv = [mod.Server(url='http://TkV%dq.example/' % i, **({'name': 'n%d' % i} if rpc else {}))]
+            kw['servers'] = sv if m['servers'] == 'list' else tuple(sv)
         if not rpc and m['prefix'] is not None:
             kw['component_name_prefix'] = m['prefix']
         if rpc and 'errors' in kw:
@@ -322,11 +330,18 @@ def observe(case):
         else:
             d.registry.view(view, prefix=m['name'].rsplit('.', 1)[0] if '.' in m['name'] else None)
     methods_map = {ep: list(d.registry.values()) for ep, d in regs.items()}
+    skw = {}
+    if case.get('spec_servers'):
+        sv = [mod.Server(url='http://spec.example/', **({'name': 'main'} if rpc else {}))]
+        skw['servers'] = sv if case['spec_servers'] == 'list' else tuple(sv)
+    if case.get('spec_tags') and not rpc:
+        tg = [oa.Tag(name='general')]
+        skw['tags'] = tg if case['spec_tags'] == 'list' else tuple(tg)
     if rpc:
-        spec = orpc.OpenRPC(info=orpc.Info(version='1', title='t'), schema_extractor=stack_of(case['stack'])[0])
+        spec = orpc.OpenRPC(info=orpc.Info(version='1', title='t'), schema_extractor=stack_of(case['stack'])[0], **skw)
     else:
         spec = oa.OpenAPI(info=oa.Info(version='1', title='t'), schema_extractors=stack_of(case['stack']), openapi=case['kind'],
-                          error_http_status_map={2001: 422, 2003: 404})
+                          error_http_status_map={2001: 422, 2003: 404}, **skw)
 
     def snapshot():
         return [[e.code for e in lst] for lst in user_lists]
